@@ -91,7 +91,14 @@ def classify_flow(flow_config, internal_events):
         elif isinstance(e, A.Label):
             out.append(["rl"] if e.name == "start_new_flow_instance" else ["step", False])
         elif isinstance(e, A.Goto):
-            out.append(["goto", labels[e.label] if e.label in labels else None])
+            tgt = labels[e.label] if e.label in labels else None
+            expr = e.expression.strip() if isinstance(e.expression, str) else None
+            if expr == "True":
+                out.append(["jump", tgt])  # unconditional goto emitted by the expander (constant condition, cannot raise)
+            elif expr in ("not (True)", "not(True)", "False"):
+                out.append(["step", False])  # loop test of `while True`: never taken, cannot raise
+            else:
+                out.append(["goto", tgt])
         elif isinstance(e, A.ForkHead):
             out.append(["fork", [lab(l, "fork") for l in e.labels]])
         elif isinstance(e, A.MergeHeads):
